@@ -744,6 +744,14 @@ class HostInterp:
     def call(self, e, env):
         # special forms first
         d = dotted(e.func)
+        if d == "next" and len(e.args) in (1, 2) and isinstance(e.args[0], (ast.GeneratorExp, ast.ListComp)):
+            # next(<generator expression>[, default]): the first element (generators are evaluated eagerly here)
+            items = list(self.ev(e.args[0], env))
+            if items:
+                return items[0]
+            if len(e.args) == 2:
+                return self.ev(e.args[1], env)
+            raise Raised("StopIteration")
         if d == "next" and len(e.args) == 1:
             try:
                 it = self.ev(e.args[0], env)
